@@ -81,9 +81,9 @@ def run(tier, rnd, out):
         return bytes(f).hex()
     mk = lambda k: {"kind": k, "fields": rand_fields(rnd, k), "filler": filler()}
     cs = [mk(k) for k in (0, 1, 2, 3) for _ in range(n)]
+    for t10 in (range(65536) if tier == "thorough" else list(range(0, 1300)) + list(range(1300, 65536, 37))):      # every tenth of a degree up to 130.0, then a sieve
+        c = mk(2); c["fields"][0] = t10; cs.append(c)
     if tier == "thorough":
-        for t10 in range(65536):
-            if t10 % 3 == 0: c = mk(2); c["fields"][0] = t10; cs.append(c)
         for t in range(0, 86400, 7): c = mk(0); c["fields"][2] = t; c["fields"][3] = 86399 - t; cs.append(c)
         for p in range(256): c = mk(1); c["fields"][0] = p; cs.append(c)
     run_stream(out, "encoded-replies", cs)
